@@ -23,12 +23,12 @@ def script(name, module, func, **kw):
 CHECKS = {
     "C03": {"crate": "h_chain", "bin": "c03", "level": "exploration", "legs": [
         native(),
-        tsan(args={"quick": {"mode": "threaded", "budget-s": 40}, "thorough": {"mode": "threaded", "budget-s": 300}}),
+        tsan(tiers=["thorough"], args={"thorough": {"mode": "threaded", "budget-s": 300}}),
     ]},
     "C04": {"crate": "h_engines", "bin": "c04", "level": "exploration", "legs": [native()]},
     "C05": {"crate": "h_engines", "bin": "c05", "level": "exploration", "legs": [
         native(),
-        tsan(args={"all": {"part": "concurrent"}}),
+        tsan(tiers=["thorough"], args={"all": {"part": "concurrent", "budget-s": 240}}),
     ]},
     "C06": {"crate": "h_engines", "bin": "c06", "level": "exploration", "legs": [native()]},
     "C07": {"crate": "h_store", "bin": "c07", "level": "exploration", "legs": [
@@ -37,7 +37,7 @@ CHECKS = {
     ]},
     "C09": {"crate": "h_engines", "bin": "c09", "level": "exploration", "legs": [
         native(),
-        tsan(args={"all": {"only": "threads"}}),
+        tsan(tiers=["thorough"], args={"all": {"only": "threads", "budget-s": 240}}),
     ]},
     "C10": {"crate": "h_chain", "bin": "c10", "level": "fault_enumeration", "legs": [
         native(),
@@ -65,11 +65,11 @@ CHECKS = {
     "C15": {"crate": "h_engines", "bin": "c15", "level": "exploration", "legs": [native()]},
     "C19": {"crate": "h_misc", "bin": "c19", "level": "exploration", "legs": [
         native(),
-        tsan(args={"quick": {"part": "concurrent", "budget-s": 30}, "thorough": {"part": "concurrent", "budget-s": 300}}),
+        tsan(tiers=["thorough"], args={"thorough": {"part": "concurrent", "budget-s": 300}}),
     ]},
     "C16": {"crate": "h_chain", "bin": "c16", "level": "exploration", "legs": [
         native(),
-        tsan(args={"quick": {"part": "concurrent", "budget-s": 30}, "thorough": {"part": "concurrent", "budget-s": 300}}),
+        tsan(tiers=["thorough"], args={"thorough": {"part": "concurrent", "budget-s": 300}}),
     ]},
     "C17": {"crate": "h_chain", "bin": "c17", "level": "exploration", "legs": [native()]},
 }
